@@ -15,8 +15,11 @@ import (
 	"math/rand"
 	"sort"
 	"strings"
+	"sync"
 	"sync/atomic"
 	"testing"
+
+	uatomic "go.uber.org/atomic"
 	"time"
 
 	"github.com/prometheus/common/model"
@@ -27,6 +30,7 @@ import (
 
 	"github.com/thanos-io/thanos/pkg/component"
 	"github.com/thanos-io/thanos/pkg/info/infopb"
+	"github.com/thanos-io/thanos/pkg/store/labelpb"
 	"github.com/thanos-io/thanos/pkg/store/storepb"
 	"github.com/thanos-io/thanos/pkg/testutil/e2eutil"
 	"github.com/thanos-io/thanos/pkg/verifhook/vfkit"
@@ -116,11 +120,52 @@ type vfc05Client struct {
 	timeMode   string
 	filter     bool // single inner store with the cuckoo metric-name filter
 	calls      atomic.Int64
+
+	// layered endpoint (a querier behind the querier): label sets, time range and TSDB infos are whatever a REAL
+	// lower ProxyStore over the children advertises, and Series goes through that lower proxy.
+	// inner then lists the TSDBStores of all children (ground truth only).
+	lower    *ProxyStore
+	children []*vfc05Client
 }
 
-func (c *vfc05Client) LabelSets() []labels.Labels         { return c.lsets }
-func (c *vfc05Client) TimeRange() (int64, int64)          { return c.minT, c.maxT }
-func (c *vfc05Client) TSDBInfos() []infopb.TSDBInfo       { return nil }
+func (c *vfc05Client) LabelSets() []labels.Labels {
+	if c.lower == nil {
+		return c.lsets
+	}
+	var out []labels.Labels
+	for _, ls := range labelpb.ZLabelSetsToPromLabelSets(c.lower.LabelSet()...) {
+		if ls.Len() > 0 {
+			out = append(out, ls.Copy())
+		}
+	}
+	return out
+}
+
+func (c *vfc05Client) TimeRange() (int64, int64) {
+	if c.lower == nil {
+		return c.minT, c.maxT
+	}
+	return c.lower.TimeRange()
+}
+
+func (c *vfc05Client) TSDBInfos() []infopb.TSDBInfo {
+	if c.lower == nil {
+		return nil
+	}
+	return c.lower.TSDBInfos()
+}
+
+func (c *vfc05Client) describe() string {
+	mi, ma := c.TimeRange()
+	if c.lower == nil {
+		return fmt.Sprintf("%s label sets %v advertised [%d,%d] (%s)", c.name, c.LabelSets(), mi, ma, c.timeMode)
+	}
+	var ch []string
+	for _, k := range c.children {
+		ch = append(ch, k.describe())
+	}
+	return fmt.Sprintf("%s = lower ProxyStore advertising label sets %v [%d,%d] over children, in this order: %s", c.name, c.LabelSets(), mi, ma, strings.Join(ch, " ; "))
+}
 func (c *vfc05Client) SupportsSharding() bool             { return true }
 func (c *vfc05Client) SupportsWithoutReplicaLabels() bool { return true }
 func (c *vfc05Client) String() string                     { return c.name }
@@ -149,6 +194,9 @@ func vfc05Direct(ctx context.Context, st *TSDBStore, req *storepb.SeriesRequest)
 
 func (c *vfc05Client) Series(ctx context.Context, req *storepb.SeriesRequest, _ ...grpc.CallOption) (storepb.Store_SeriesClient, error) {
 	c.calls.Add(1)
+	if c.lower != nil {
+		return storepb.ServerAsClient(c.lower, uatomic.Bool{}).Series(ctx, req)
+	}
 	var all []*storepb.Series
 	for _, in := range c.inner {
 		ss, err := vfc05Direct(ctx, in.store, req)
@@ -254,16 +302,16 @@ func TestVF_C05(t *testing.T) {
 	r := vfkit.Start(t, "C05")
 	defer r.Finish()
 	r.Rule("case = scenario of 1..4 endpoints, each in front of 0..2 real TSDBStores (pool of tiny TSDBs: 0..4 series over {__name__,a,b,region}, samples in a few windows) with generated external label sets over {region,replica,a}, " +
-		"advertised time range {exact data range, TSDBStore's own, unbounded}, optional TSDBSelector keep/drop relabel config, optional cuckoo metric-name filter x 50 (thorough 100) queries: 1..3 matchers (=,!=,=~,!~; empty values, .*, .+, alternations, absent names) " +
-		"and time ranges on/around the advertised bounds, 10% with __address__ debug matchers; observation = which endpoints the real ProxyStore.Series called; " +
+		"advertised time range {exact data range, TSDBStore's own, unbounded}; 40% of the endpoints are layered: label sets / time range / TSDB infos are what a REAL lower ProxyStore over 2..4 such children (one TSDBStore each, any order; enclosing, staggered, disjoint ranges) advertises and Series goes through it; optional TSDBSelector keep/drop relabel config, optional cuckoo metric-name filter x 40 (thorough 80) queries: 1..3 matchers (=,!=,=~,!~; empty values, .*, .+, alternations, absent names) " +
+		"and time ranges on/around the advertised bounds (of the endpoint and of its children; 35% narrow windows anchored at such a point), 30% broad selectors, 10% with __address__ debug matchers; observation = which endpoints the real ProxyStore.Series called (every 6th query, cross-checked) resp. ProxyStore.matchingStores selected (the others); " +
 		"oracle per (endpoint,query): skipped because of time range / external labels / selector  =>  no TSDBStore of the endpoint (that the selector admits) returns a series when asked directly with the same request; " +
 		"evaluation = one (endpoint,query) pair; distinct = (label sets, advertised range, selector, matchers, query range) of a pair whose endpoint was skipped")
 	r.Assume("an endpoint advertises the external label set of every TSDB behind it; a TSDB without external labels is only used alone (then nothing is advertised): stores without external labels behind a multi-TSDB endpoint are a documented misconfiguration")
 	r.Assume("ground truth is the TSDBStore's own answer to the same request (matchers, time range); an InvalidArgument answer counts as holding nothing")
 	r.Assume("skips caused by an explicit __address__ debug matcher or by the metric-name filter are outside the statement: counted, not judged")
 
-	nScen := r.N(110, 1000)
-	nQ := r.N(50, 100)
+	nScen := r.N(160, 1600)
+	nQ := r.N(40, 80)
 	r.Require(int64(nScen*nQ), nScen*nQ/8)
 
 	nDB := r.N(16, 48)
@@ -283,20 +331,28 @@ func TestVF_C05(t *testing.T) {
 	sels := vfc05Selectors()
 	ctx := context.Background()
 
-	for c := 0; c < nScen; c++ {
-		if !r.Want(c) {
-			continue
-		}
+	// scenarios are independent (own PRNG stream, own stores; the TSDB pool is only read): 4 workers
+	runScenario := func(c int) {
 		rng := r.Rand(c)
 		sel := vfkit.Pick(rng, sels)
 		var clients []Client
 		var vcl []*vfc05Client
 		var closers []*TSDBStore
+		defer func() {
+			for _, s := range closers {
+				s.Close()
+			}
+		}()
 		nStores := 1 + rng.Intn(4)
-		for si := 0; si < nStores; si++ {
-			cl := &vfc05Client{name: fmt.Sprintf("vfep-%d", si)}
+		// mkLeaf builds an endpoint directly in front of 0..2 real TSDBStores. A child of a layered endpoint always fronts
+		// exactly one TSDBStore with external labels (a store without external labels behind a querier is a misconfiguration).
+		mkLeaf := func(name string, child bool) *vfc05Client {
+			cl := &vfc05Client{name: name}
 			nInner := []int{0, 1, 1, 1, 1, 1, 1, 2, 2, 2}[rng.Intn(10)]
 			noExt := nInner == 1 && rng.Intn(6) == 0
+			if child {
+				nInner, noExt = 1, false
+			}
 			exts := vfkit.Perm(rng, vfc05Exts)
 			dmin, dmax := int64(math.MaxInt64), int64(math.MinInt64)
 			smin := int64(math.MaxInt64)
@@ -306,7 +362,7 @@ func TestVF_C05(t *testing.T) {
 					in.ext = labels.EmptyLabels()
 				}
 				var opts []TSDBStoreOption
-				if nInner == 1 && rng.Intn(5) == 0 {
+				if nInner == 1 && !child && rng.Intn(8) == 0 {
 					opts = append(opts, WithCuckooMetricNameStoreFilter())
 					cl.filter = true
 				}
@@ -323,6 +379,9 @@ func TestVF_C05(t *testing.T) {
 				smin = min(smin, a)
 			}
 			cl.timeMode = vfkit.Pick(rng, []string{"exact", "exact", "tsdbstore", "unbounded"})
+			if child {
+				cl.timeMode = vfkit.Pick(rng, []string{"exact", "exact", "exact", "exact", "tsdbstore", "unbounded"})
+			}
 			switch {
 			case cl.timeMode == "exact" && dmin <= dmax:
 				cl.minT, cl.maxT = dmin, dmax
@@ -333,8 +392,31 @@ func TestVF_C05(t *testing.T) {
 			default:
 				cl.minT, cl.maxT = math.MinInt64, math.MaxInt64
 			}
+			return cl
+		}
+		layeredInScenario := false
+		for si := 0; si < nStores; si++ {
+			var cl *vfc05Client
+			if rng.Intn(10) < 4 {
+				// layered: a real lower ProxyStore over 2..4 children (their order is the generated order: any order occurs)
+				cl = &vfc05Client{name: fmt.Sprintf("vfep-%d", si), timeMode: "lower-proxy"}
+				var kids []Client
+				for k, nk := 0, 2+rng.Intn(3); k < nk; k++ {
+					ch := mkLeaf(fmt.Sprintf("vfep-%d-child-%d", si, k), true)
+					cl.children = append(cl.children, ch)
+					cl.inner = append(cl.inner, ch.inner...)
+					kids = append(kids, ch)
+				}
+				cl.lower = NewProxyStore(nil, nil, func() []Client { return kids }, component.Query, labels.EmptyLabels(), 0, EagerRetrieval)
+				layeredInScenario = true
+			} else {
+				cl = mkLeaf(fmt.Sprintf("vfep-%d", si), false)
+			}
 			clients = append(clients, cl)
 			vcl = append(vcl, cl)
+		}
+		if layeredInScenario {
+			r.Count("scenarios_with_layered_endpoint", 1)
 		}
 		var popts []ProxyStoreOption
 		if sel.cfg != nil {
@@ -352,10 +434,33 @@ func TestVF_C05(t *testing.T) {
 
 		for qi := 0; qi < nQ; qi++ {
 			ms := vfc05GenMatchers(rng)
+			if rng.Intn(10) < 3 {
+				// a broad selector, as dashboards and rules send them
+				ms = []storepb.LabelMatcher{vfkit.Pick(rng, []storepb.LabelMatcher{
+					{Type: storepb.LabelMatcher_RE, Name: "__name__", Value: ".+"},
+					{Type: storepb.LabelMatcher_RE, Name: "__name__", Value: "m.*"},
+					{Type: storepb.LabelMatcher_NEQ, Name: "__name__", Value: ""},
+					{Type: storepb.LabelMatcher_NEQ, Name: "zz", Value: "q"},
+				})}
+			}
 			// time range on/around the advertised bounds of one endpoint
 			ref := vcl[rng.Intn(len(vcl))]
+			if rng.Intn(2) == 0 {
+				// prefer a layered endpoint as the reference when the scenario has one
+				for _, off := range rng.Perm(len(vcl)) {
+					if vcl[off].lower != nil {
+						ref = vcl[off]
+						break
+					}
+				}
+			}
 			var cands []int64
-			for _, b := range []int64{ref.minT, ref.maxT} {
+			rmin, rmax := ref.TimeRange()
+			bounds := []int64{rmin, rmax}
+			for _, ch := range ref.children {
+				bounds = append(bounds, ch.minT, ch.maxT)
+			}
+			for _, b := range bounds {
 				if b > math.MinInt64+2 && b < math.MaxInt64-2 {
 					cands = append(cands, b-1, b, b+1)
 				}
@@ -365,6 +470,14 @@ func TestVF_C05(t *testing.T) {
 			if qmin > qmax {
 				qmin, qmax = qmax, qmin
 			}
+			if rng.Intn(20) < 7 {
+				// a narrow window anchored at one of the candidate points (just before / on / just past a bound)
+				w := vfkit.Pick(rng, []int64{0, 1, 50, 1000})
+				if qmin = vfkit.Pick(rng, cands); qmin > math.MaxInt64-w {
+					qmin = math.MaxInt64 - w
+				}
+				qmax = qmin + w
+			}
 			req := &storepb.SeriesRequest{MinTime: qmin, MaxTime: qmax, Matchers: ms, PartialResponseStrategy: storepb.PartialResponseStrategy_WARN}
 			qctx := ctx
 			var dbg [][]*labels.Matcher
@@ -372,39 +485,57 @@ func TestVF_C05(t *testing.T) {
 				dbg = [][]*labels.Matcher{{labels.MustNewMatcher(vfkit.Pick(rng, []labels.MatchType{labels.MatchEqual, labels.MatchNotEqual, labels.MatchRegexp}), "__address__", vfkit.Pick(rng, []string{"vfep-0", "vfep-1", "vfep-.*", "nope"}))}}
 				qctx = context.WithValue(ctx, StoreMatcherKey, dbg)
 			}
-			for _, cl := range vcl {
-				cl.calls.Store(0)
-			}
-			srv := vfc03NewServer(qctx)
-			var err error
-			done := make(chan struct{})
-			go func() {
-				defer close(done)
-				r.Guard(c, "proxy-series", map[string]any{"matchers": vfc05FmtMatchers(ms), "range": []int64{qmin, qmax}}, func() { err = p.Series(req, srv) })
-			}()
-			select {
-			case <-done:
-			case <-time.After(120 * time.Second):
-				r.Inconclusive(fmt.Sprintf("scenario %d query %d: ProxyStore.Series did not return within 120s", c, qi))
-				return
-			}
-			if err != nil {
-				// e.g. InvalidArgument: not a pruning decision
-				r.Count("queries_rejected_by_proxy", 1)
-				continue
-			}
 			pms, perr := storepb.MatchersToPromMatchers(ms...)
 			if perr != nil {
-				t.Fatalf("matchers: %v", perr)
+				r.Inconclusive(fmt.Sprintf("harness: matchers %s: %v", vfc05FmtMatchers(ms), perr))
+				return
+			}
+			// Every 6th query goes through the public ProxyStore.Series (skipped = the endpoint's Series was not called) and is
+			// cross-checked with matchingStores; the others take the pruning decision from matchingStores directly (no fan-out).
+			selected := map[*vfc05Client]bool{}
+			sel2, _, _ := p.matchingStores(qctx, clients, qmin, qmax, pms)
+			for _, st := range sel2 {
+				selected[st.(*vfc05Client)] = true
+			}
+			if qi%6 == 0 {
+				for _, cl := range vcl {
+					cl.calls.Store(0)
+				}
+				srv := vfc03NewServer(qctx)
+				var err error
+				done := make(chan struct{})
+				go func() {
+					defer close(done)
+					r.Guard(c, "proxy-series", map[string]any{"matchers": vfc05FmtMatchers(ms), "range": []int64{qmin, qmax}}, func() { err = p.Series(req, srv) })
+				}()
+				select {
+				case <-done:
+				case <-time.After(120 * time.Second):
+					r.Inconclusive(fmt.Sprintf("scenario %d query %d: ProxyStore.Series did not return within 120s", c, qi))
+					return
+				}
+				if err != nil {
+					// e.g. InvalidArgument: not a pruning decision
+					r.Count("queries_rejected_by_proxy", 1)
+					continue
+				}
+				r.Count("queries_through_series", 1)
+				for _, cl := range vcl {
+					if called := cl.calls.Load() > 0; called != selected[cl] {
+						r.Inconclusive(fmt.Sprintf("scenario %d query %d: ProxyStore.Series called=%v but matchingStores selected=%v for %s: the two observation points disagree", c, qi, called, selected[cl], cl.name))
+					}
+					selected[cl] = cl.calls.Load() > 0
+				}
 			}
 			for _, cl := range vcl {
 				r.Eval(1)
-				called := cl.calls.Load() > 0
-				if called {
+				if selected[cl] {
 					r.Count("pairs_selected", 1)
 					continue
 				}
 				// skipped: why?
+				advMin, advMax := cl.TimeRange()
+				lsets := cl.LabelSets()
 				ok, reason := storeMatches(qctx, false, cl, qmin, qmax, pms...)
 				class := vfc05ReasonClass(reason)
 				if ok {
@@ -414,6 +545,9 @@ func TestVF_C05(t *testing.T) {
 					}
 				}
 				r.Count("pairs_skipped_"+class, 1)
+				if cl.lower != nil {
+					r.Count("pairs_skipped_layered_endpoint_"+class, 1)
+				}
 				// ground truth
 				held := false
 				var heldBy string
@@ -427,7 +561,7 @@ func TestVF_C05(t *testing.T) {
 						heldBy = fmt.Sprintf("TSDB ext=%s returns %d series, first %s", in.ext, len(ss), ss[0].PromLabels())
 					}
 				}
-				key := fmt.Sprintf("%v|%d|%d|%s|%s|%d|%d", cl.lsets, cl.minT, cl.maxT, sel.name, vfc05FmtMatchers(ms), qmin, qmax)
+				key := fmt.Sprintf("%v|%d|%d|%s|%s|%d|%d", lsets, advMin, advMax, sel.name, vfc05FmtMatchers(ms), qmin, qmax)
 				if class == "address-matcher" || class == "metric-name-filter" {
 					if held {
 						r.Count("held_but_skipped_by_"+class+"_not_judged", 1)
@@ -435,22 +569,41 @@ func TestVF_C05(t *testing.T) {
 					continue
 				}
 				r.Distinct(key)
-				r.Sample(map[string]any{"endpoint_label_sets": fmt.Sprint(cl.lsets), "advertised": []int64{cl.minT, cl.maxT}, "selector": sel.name,
+				r.Sample(map[string]any{"endpoint_label_sets": fmt.Sprint(lsets), "advertised": []int64{advMin, advMax}, "selector": sel.name,
 					"matchers": vfc05FmtMatchers(ms), "range": []int64{qmin, qmax}, "skip_reason": class, "held": held})
 				if held {
 					var inner []any
 					for _, in := range cl.inner {
 						inner = append(inner, map[string]any{"external_labels": in.ext.String(), "series": in.db.desc})
 					}
-					r.Violation(c, "held-store-skipped reason="+class,
-						fmt.Sprintf("endpoint %s (label sets %v, advertised [%d,%d]) was skipped (%s) for %s [%d,%d] but %s", cl.name, cl.lsets, cl.minT, cl.maxT, class, vfc05FmtMatchers(ms), qmin, qmax, heldBy),
-						map[string]any{"endpoint": cl.name, "label_sets": fmt.Sprint(cl.lsets), "advertised": []int64{cl.minT, cl.maxT}, "time_mode": cl.timeMode, "selector": sel.name,
-							"matchers": vfc05FmtMatchers(ms), "range": []int64{qmin, qmax}, "tsdbs": inner, "held_by": heldBy, "skip_reason": reason})
+					fp := "held-store-skipped reason=" + class
+					if cl.lower != nil {
+						fp += " endpoint=lower-proxy" // what a real lower ProxyStore advertised was pruned on
+					}
+					r.Violation(c, fp,
+						fmt.Sprintf("endpoint %s (label sets %v, advertised [%d,%d]) was skipped (%s) for %s [%d,%d] but %s", cl.name, lsets, advMin, advMax, class, vfc05FmtMatchers(ms), qmin, qmax, heldBy),
+						map[string]any{"endpoint": cl.name, "label_sets": fmt.Sprint(lsets), "advertised": []int64{advMin, advMax}, "time_mode": cl.timeMode, "selector": sel.name,
+							"matchers": vfc05FmtMatchers(ms), "range": []int64{qmin, qmax}, "tsdbs": inner, "held_by": heldBy, "skip_reason": reason, "topology": cl.describe()})
 				}
 			}
 		}
-		for _, s := range closers {
-			s.Close()
+	}
+	var wg sync.WaitGroup
+	idx := make(chan int)
+	for w := 0; w < 4; w++ {
+		wg.Add(1)
+		go func() {
+			defer wg.Done()
+			for c := range idx {
+				runScenario(c)
+			}
+		}()
+	}
+	for c := 0; c < nScen; c++ {
+		if r.Want(c) {
+			idx <- c
 		}
 	}
+	close(idx)
+	wg.Wait()
 }
